@@ -15,9 +15,17 @@ CMD=$(grep -o 'g++ [^`]*demo.cpp -o demo' $WT/NOTES.md | head -1)
 [ -z "$CMD" ] && CMD="g++ -std=c++17 -g -fsanitize=address,undefined -I source/include demo.cpp -o demo"
 echo "demo_cmd=$CMD" >> $OUT
 cp $WT/demo.cpp $CLEAN/demo.cpp
+if [ -f $WT/demo.sh ]; then
+  cp $WT/demo.sh $CLEAN/demo.sh
+  sed -i "s/^demo_cmd=.*/demo_cmd=sh demo.sh/" $OUT
+  (cd $CLEAN && sh demo.sh >/dev/null 2>&1; echo "demo_clean_exit=$?" >> $OUT)
+  git -C $CLEAN apply $WT/patch.diff
+  (cd $CLEAN && sh demo.sh >/dev/null 2>&1; echo "demo_patched_exit=$?" >> $OUT)
+else
 (cd $CLEAN && sh -c "$CMD" >/dev/null 2>>$OUT && ASAN_OPTIONS=detect_leaks=0 ./demo >/dev/null 2>&1; echo "demo_clean_exit=$?" >> $OUT)
 git -C $CLEAN apply $WT/patch.diff
 (cd $CLEAN && sh -c "$CMD" >/dev/null 2>>$OUT && ASAN_OPTIONS=detect_leaks=0 ./demo >/dev/null 2>&1; echo "demo_patched_exit=$?" >> $OUT)
+fi
 # the test suite with the patch
 cmake -G Ninja -S $CLEAN -B $CLEAN/_build -DCMAKE_BUILD_TYPE=RelWithDebInfo -DGCH_SMALL_VECTOR_ENABLE_BENCHMARKS=OFF >/dev/null 2>&1
 if cmake --build $CLEAN/_build -j$J >$CLEAN/build.log 2>&1; then echo "suite_build=ok" >> $OUT; else echo "suite_build=FAILED" >> $OUT; tail -5 $CLEAN/build.log >> $OUT; fi
